@@ -107,7 +107,9 @@ func minimiseAndWrite(prop string, f *found) (string, bool) {
 	if ok := failsBatch([]RunCfg{withTrace(cfg, trace)}, key, crash); !ok[0] {
 		return "", false
 	}
-	if os.Getenv("VERIF_NO_MINIMISE") == "" {
+	// (a lock deadlock is only seen after the watchdog's real-time limit: its
+	// trace is reported as recorded)
+	if os.Getenv("VERIF_NO_MINIMISE") == "" && !strings.Contains(key, "gateway_deadlock") {
 		trace = ddmin(cfg, trace, key, crash)
 		// 2. schedule simplification: drop every scheduling decision and drain eagerly instead
 		var ext []Decision
